@@ -83,6 +83,9 @@ def parts():
                   describe=lambda r: {k: r.get(k) for k in ('cfg', 'strategy', 'verdict', 'cycles', 'blocked')}),
         __import__('harness.scen_seqstop', fromlist=['part']).part(200, 4000),
         __import__('harness.scen_procstack', fromlist=['part']).part(7, 60),
+        # AsyncServer / Server for real: the same server object entered again (AsyncServer: under a new event loop each time),
+        # with abandoned requests and callers that had to wait for room in both sessions
+        __import__('harness.scen_backlog', fromlist=['part']).part(10, 120),
     ]
 
 
